@@ -458,6 +458,91 @@ func runC12(r *ev.Run) {
 			}
 		}
 		_ = removalsOnly
+		// checkReachPending: the same invariant while soft deletes are pending and no Flush has run yet. Tombstoned
+		// vertices stay in the graph until Flush and searches walk through them, so "reachable" here means reachable over
+		// layer-0 edges THROUGH tombstones. A live vertex u that is cut off is explained by u itself and by every
+		// cut-off vertex x (live or tombstoned) that still has a path to u: had x kept its incoming link, u would be
+		// reachable. The local criterion is sharp here because no neighbour list has been thinned yet.
+		checkReachPending := func() {
+			if flushHappened || pending == 0 || len(m.live) == 0 {
+				return
+			}
+			g := comet.VerifHNSWGraph(idx)
+			reach := hnswReach(g, true)
+			unreach := map[uint32]bool{}
+			anyLive := false
+			for id := range g.Nodes {
+				if !reach[id] {
+					unreach[id] = true
+					if m.live[id] {
+						anyLive = true
+					}
+				}
+			}
+			r.Count("invariant:reachability-checks-with-pending-deletes", 1)
+			if !anyLive {
+				return
+			}
+			rev := map[uint32][]uint32{}
+			for x := range unreach {
+				if n := g.Nodes[x]; len(n.Edges) > 0 {
+					for _, w := range n.Edges[0] {
+						if unreach[w] {
+							rev[w] = append(rev[w], x)
+						}
+					}
+				}
+			}
+			sigOf := map[uint32]string{}
+			for _, u := range sortedKeys(unreach) {
+				if !m.live[u] || classified[u] {
+					continue
+				}
+				classified[u] = true
+				seen := map[uint32]bool{u: true}
+				queue := []uint32{u}
+				sig, via := "", u
+				for len(queue) > 0 {
+					x := queue[0]
+					queue = queue[1:]
+					sx, ok := sigOf[x]
+					if !ok {
+						sx = classifyUnreachable(g, dist, x, unreach, false)
+						sigOf[x] = sx
+					}
+					if sig == "" || (sig == "hnsw.orphaned-by-nearest-M-pruning" && sx != sig) {
+						sig, via = sx, x
+					}
+					back := append([]uint32(nil), rev[x]...)
+					sort.Slice(back, func(i, j int) bool { return back[i] < back[j] })
+					for _, y := range back {
+						if !seen[y] {
+							seen[y] = true
+							queue = append(queue, y)
+						}
+					}
+				}
+				if sig == "hnsw.unreachable.isolated-vertex" && via == u {
+					// insertion links a newcomer to the LIVE vertices it finds from the entry point; when earlier cut-offs
+					// left no live vertex in the entry point's component it finds none (this check runs after every add,
+					// so the graph is the one the insertion saw plus u itself)
+					liveReachable := 0
+					for id := range m.live {
+						if reach[id] {
+							liveReachable++
+						}
+					}
+					if liveReachable == 0 {
+						sig = "hnsw.unreachable.isolated-vertex.no-live-vertex-reachable-when-inserted"
+					}
+				}
+				how := ""
+				if via != u {
+					how = fmt.Sprintf(" (through cut-off vertex %d, soft-deleted=%v, which still has a path to it)", via, !m.live[via])
+				}
+				rep(sig, fmt.Sprintf("with %d soft deletes pending and no Flush so far, live vertex %d (of %d) is not reachable from entry point %d over layer-0 edges even through tombstones%s; %d resident vertices unreachable", pending, u, len(m.live), g.EntryPoint, how, len(unreach)))
+			}
+		}
 		step := 0
 		for len(m.resident) < target && step < 4*target {
 			step++
@@ -474,6 +559,7 @@ func runC12(r *ev.Run) {
 				if len(m.resident)%16 == 0 || len(m.resident) < 3*M {
 					checkReach(nil)
 				}
+				checkReachPending()
 			case c < 19:
 				// adversarial removals chosen on the graph
 				g := comet.VerifHNSWGraph(idx)
@@ -538,6 +624,7 @@ func runC12(r *ev.Run) {
 			default:
 				var before map[uint32]bool
 				if pending > 0 {
+					checkReachPending()
 					before = hnswReach(comet.VerifHNSWGraph(idx), true)
 				}
 				hist = append(hist, histOp{Op: "flush"})
@@ -557,6 +644,7 @@ func runC12(r *ev.Run) {
 			}
 		}
 		if pending > 0 {
+			checkReachPending()
 			before := hnswReach(comet.VerifHNSWGraph(idx), true)
 			idx.Flush()
 			m.flush()
